@@ -197,6 +197,15 @@ pub struct Stepped {
     pub ix: Option<Instruction>,
 }
 
+/// Execute an already built instruction on a copy of the ledger through the given dispatch route.
+pub fn apply_ix(l: &Ledger, ix: &Instruction, route: svm::Route) -> Stepped {
+    let mut n = l.clone();
+    let _ = whirlpool::verif_hooks::take_swap_trace();
+    let o = svm::process_routed(&mut n, ix, route);
+    let trace = whirlpool::verif_hooks::take_swap_trace();
+    Stepped { ledger: n, outcome: o, trace, ix: Some(ix.clone()) }
+}
+
 /// Execute one op on a copy of the ledger. A failed instruction leaves the copy equal to the input.
 pub fn apply(l: &Ledger, w: &StdWorld, op: &Op) -> Stepped {
     let mut n = l.clone();
